@@ -116,7 +116,17 @@ fn parse_case(line: &str) -> Option<ParsedCase> {
     // tables and rows go through the `hist` parser
     let (hs, _) = hist::parse_case(&format!("hist {} |", hist_words.join(" ")))?;
     st.tables = hs.tables;
-    st.rows = hs.rows;
+    for it in hs.items {
+        match it {
+            hist::Item::Row(t, vals) => st.rows.push((t, vals)),
+            // constraints added after creation are not part of this engine's cases
+            hist::Item::Con(..) => return None,
+        }
+    }
+    // multi-column keys are not part of this engine's cases either (single-column `*` / `!` flags are)
+    if st.tables.iter().any(|t| !t.keys.is_empty()) {
+        return None;
+    }
     for (t, _, _) in &st.fills {
         let tab = st.tables.iter().find(|x| &x.name == t)?;
         let shape: Vec<&str> = tab.cols.iter().map(|c| c.ty.as_str()).collect();
@@ -731,7 +741,7 @@ enum Shape {
     ScanVsSplit,
     /// several writers insert into / delete from the SAME table (region `same_table_writers`)
     SameTableWriters,
-    /// as Deep with a cache of 12–20 pages, below the working set (region `small_cache`)
+    /// as Deep with a cache of 12–20 pages, below the working set: frames are evicted while other threads pin pages
     SmallCache,
     /// as WritersReaders plus a thread that calls Database::flush (region `flush_concurrent`)
     FlushConcurrent,
@@ -948,7 +958,10 @@ fn gen_case(rng: &mut Rng, shape: Shape, small_cache: bool) -> Case {
             tags.push("clean".into());
         }
         Shape::SameTableWriters => tags.push("same_table_writers".into()),
-        Shape::SmallCache => tags.push("small_cache".into()),
+        Shape::SmallCache => {
+            tags.push("small_cache".into());
+            tags.push("clean".into());
+        }
         Shape::FlushConcurrent => tags.push("flush_concurrent".into()),
         Shape::SubQ => tags.push("panic_stmt".into()),
         _ => tags.push("clean".into()),
@@ -968,16 +981,17 @@ impl Engine for ThreadsEngine {
             Shape::SameTableReaders,
             Shape::SnapshotRace,
             Shape::ScanVsSplit,
+            Shape::SmallCache,
         ];
-        // cases of the four known-finding regions are spread among the clean ones (a hang costs its supervisor slot 10 s)
-        let regions = [Shape::SameTableWriters, Shape::SmallCache, Shape::FlushConcurrent, Shape::SubQ, Shape::SameTableWriters];
+        // cases of the three known-finding regions are spread among the clean ones (a hang costs its supervisor slot 10 s)
+        let regions = [Shape::SameTableWriters, Shape::FlushConcurrent, Shape::SubQ, Shape::SameTableWriters];
         let rounds = if quick { 40 } else { 600 };
         for r in 0..rounds {
             for s in clean {
                 let small = s == Shape::Deep && rng.chance(1, 2);
                 out.push(gen_case(rng, s, small));
             }
-            // quick: 14 region cases in 254 (6 %); thorough: 400 in 4000 (10 %)
+            // quick: 14 region cases in ~330 (4 %); thorough: 400 in ~5200 (8 %)
             let every = if quick { 3 } else { 3 };
             if r % every == 0 {
                 let s = regions[(r / every) % regions.len()];
